@@ -14,12 +14,16 @@ package pkix
 //@ ghost func isParseOf(m map[string]string, s string) bool
 //@ pure func alias(t string) string = ite(t == "S", "ST", t)
 
+//@ pure func hasAttr(s string, k string) bool = exists(i, 0, dnN(s), alias(atType(s, i, 0)) == k && atValue(s, i, 0) != "")
+//@ pure func dnAccepted(s string) bool = ldapErr(s) == nil && !contains(s, "=#") && forall(i, 0, dnN(s), rdnN(s, i) == 1) && forall(i, 0, dnN(s), forall(j, 0, i, alias(atType(s, i, 0)) != alias(atType(s, j, 0)))) && hasAttr(s, "C") && hasAttr(s, "ST") && hasAttr(s, "O")
+
 //@ func ParseDistinguishedName
 //@ props C04 C09
 //@ ensures[C04.parse-all]  result1 == nil ==> forall(i, 0, dnN(name), rdnN(name, i) == 1 && has(result, alias(atType(name, i, 0))) && result[alias(atType(name, i, 0))] == atValue(name, i, 0))
 //@ ensures[C04.parse-only] result1 == nil ==> forallkeys(k, result, exists(i, 0, dnN(name), alias(atType(name, i, 0)) == k))
 //@ ensures[C04.unique]     result1 == nil ==> forall(i, 0, dnN(name), forall(j, 0, i, alias(atType(name, i, 0)) != alias(atType(name, j, 0))))
 //@ ensures[C04.mandatory]  result1 == nil ==> result["C"] != "" && result["ST"] != "" && result["O"] != ""
+//@ ensures[C09.dn-accepted] result1 == nil ==> dnAccepted(name)
 //@ ensures[C04.failclosed] ldapErr(name) != nil || contains(name, "=#") ==> result1 != nil
 //@ ensures result1 != nil ==> result == nil
 //@ ensures result1 == nil ==> fresh(result)
